@@ -351,17 +351,50 @@ func (c *c17Ctx) tsmHasSeries(seriesKey string, groups []c17Group) bool {
 
 // undeletedTrigger names the observable trigger of a delete that left covered points behind.
 func (c *c17Ctx) undeletedTrigger(skey string) string {
+	if os.Getenv("C17_DUMP") != "" {
+		c.dump(skey)
+	}
 	if c.feat["mode"] == "string" && strings.Contains(c.feat["shape"], "meas_neq") {
 		return "user_path_measurement_neq"
 	}
 	for other := range c.w.ByKey {
-		// composite TSM keys are series key + "#!~#" + field: a sibling series whose key continues
-		// with a byte below '#' sorts between this series' key and its field keys
+		// composite TSM keys are series key + "#!~#" + field: when one series key is the other plus
+		// a byte below '#', series keys and composite keys sort differently
 		if len(other) > len(skey) && strings.HasPrefix(other, skey) && other[len(skey)] < '#' {
+			return "sibling_series_key_sorts_before_field_separator"
+		}
+		if len(skey) > len(other) && strings.HasPrefix(skey, other) && skey[len(other)] < '#' {
 			return "sibling_series_key_sorts_before_field_separator"
 		}
 	}
 	return "unknown"
+}
+
+// dump prints where the series' data sits (debugging aid).
+func (c *c17Ctx) dump(skey string) {
+	for _, g := range c.env.Groups() {
+		sh := c.env.TS.Shard(g.ShardID)
+		eng, err := sh.Engine()
+		if err != nil {
+			continue
+		}
+		e := eng.(*tsm1.Engine)
+		for _, f := range e.FileStore.Files() {
+			mn, mx := f.KeyRange()
+			fmt.Printf("DUMP shard %d file %s keyrange [%q .. %q] tombstones=%v\n", g.ShardID, f.Path()[len(f.Path())-22:], mn, mx, f.HasTombstones())
+			for i := 0; i < f.KeyCount(); i++ {
+				k, _ := f.KeyAt(i)
+				if strings.HasPrefix(string(k), skey+"#") {
+					fmt.Printf("DUMP    key %q tombstones %v\n", k, f.TombstoneRange(k))
+				}
+			}
+		}
+		for _, k := range e.Cache.Keys() {
+			if strings.HasPrefix(string(k), skey+"#") {
+				fmt.Printf("DUMP shard %d cache key %q n=%d\n", g.ShardID, k, e.Cache.Values(k).Len())
+			}
+		}
+	}
 }
 
 // checkPoints compares what a filter read over [lo,hi) returns with the model.
@@ -420,6 +453,10 @@ func (c *c17Ctx) checkPoints(caseID, scope string, lo, hi int64, groups []c17Gro
 				c.violate("matching_points_not_deleted", map[string]string{"scope": scope, "trigger": c.undeletedTrigger(skey)}, fmt.Sprintf("%s field %q: %d point(s) the delete covers are still readable", skey, f, extra), d, caseID)
 			case lost > 0:
 				via := "data_gone"
+				trig := c.undeletedTrigger(skey)
+				if trig == "user_path_measurement_neq" {
+					trig = "unknown"
+				}
 				var dp []sk.Pt
 				for _, p := range c.filterSkip(skey, f, c.directRead(c.w.ByKey[skey], f, groups)) {
 					if p.T >= mlo && p.T <= mhi {
@@ -429,7 +466,7 @@ func (c *c17Ctx) checkPoints(caseID, scope string, lo, hi int64, groups []c17Gro
 				if sk.Diff(want, dp) == "" {
 					via = "data_present_series_not_indexed"
 				}
-				c.violate("other_points_unreadable", map[string]string{"via": via, "scope": scope}, fmt.Sprintf("%s field %q: %d point(s) no delete covers are not readable (%s)", skey, f, lost, via), d, caseID)
+				c.violate("other_points_unreadable", map[string]string{"via": via, "scope": scope, "trigger": trig}, fmt.Sprintf("%s field %q: %d point(s) no delete covers are not readable (%s)", skey, f, lost, via), d, caseID)
 			default:
 				c.violate("wrong_value_read", map[string]string{"scope": scope}, fmt.Sprintf("%s field %q", skey, f), d, caseID)
 			}
@@ -579,8 +616,8 @@ func (c *c17Ctx) check(caseID string) {
 				}
 				prefix := false
 				for other := range live {
-					if strings.HasPrefix(other, skey+",") {
-						prefix = true
+					if len(other) > len(skey) && strings.HasPrefix(other, skey) {
+						prefix = true // e.g. "m,t0=a" vs "m,t0=a,t1=x", "m,t0=ab", "m,t0=a\\,b"
 					}
 				}
 				switch {
@@ -743,8 +780,9 @@ func c17History(r *vkit.Run, t *testing.T, i int) {
 				if rg.Chance(2, 3) {
 					ids = append(ids, g.ShardID)
 					if err := env.Snapshot(g.ShardID); err != nil {
-						r.Event("snapshot_refused", 1) // e.g. "snapshots disabled" on a shard the store just idled
-						continue
+						// a failed WriteSnapshot leaves the cache snapshot in flight (C03's subject): stop here
+						r.Inconclusive("snapshot_refused")
+						return
 					}
 				}
 			}
@@ -1071,7 +1109,10 @@ func c17Stress(r *vkit.Run, t *testing.T, i int) {
 	}
 	if rg.Bool() {
 		for _, gr := range env.Groups() {
-			env.Snapshot(gr.ShardID)
+			if env.Snapshot(gr.ShardID) != nil {
+				r.Inconclusive("snapshot_refused")
+				return
+			}
 		}
 	}
 	c.hist = append(c.hist, fmt.Sprintf("seed %d points at offsets %v of every group", len(seed), insideOff))
@@ -1182,7 +1223,9 @@ func TestC17(t *testing.T) {
 	nStress := r.N(6, 40)
 	phase := map[string]float64{}
 	only := os.Getenv("VERIF_ONLY") // e.g. "hist:16": run one case (debugging / replay)
-	sel := func(kind string, i int) bool { return only == "" || only == fmt.Sprintf("%s:%d", kind, i) }
+	sel := func(kind string, i int) bool {
+		return only == "" || only == kind || only == fmt.Sprintf("%s:%d", kind, i)
+	}
 	t0 := time.Now()
 	defer func() { r.Extra("phase_seconds", phase) }()
 	// histories own their engine and set no hooks: run them on a few workers
